@@ -14,13 +14,13 @@ import (
 
 // Stmt is one statement; Body (the callee) is used by call / defer.
 type Stmt struct {
-	Op   string `json:"op"`             // print printarg call defer deferbin deferdel probe panic recover repanic setres setouter deferloop
-	S    string `json:"s,omitempty"`    // print / deferbin tag; panic: value kind (str int err fault)
-	V    string `json:"v,omitempty"`    // panic: value text (string, decimal, error text, fault kind)
+	Op   string `json:"op"`             // print printarg call defer defervar deferbin deferdel deferpanic probe panic recover recoveris repanic setres setouter deferloop
+	S    string `json:"s,omitempty"`    // print / deferbin tag; panic / deferpanic / recoveris: value kind (str int err fault)
+	V    string `json:"v,omitempty"`    // panic / deferpanic / recoveris: value text (string, decimal, error text, fault kind)
 	N    int    `json:"n,omitempty"`    // setres / setouter value; deferdel / probe key; deferloop: iterations
 	Arg  string `json:"arg,omitempty"`  // call / defer / deferbin: "param", "res" or a decimal literal
 	Show bool   `json:"show,omitempty"` // call: print the result; recover: print the value
-	Form string `json:"form,omitempty"` // call / defer: how the callee is written: lit | named | method | pmethod
+	Form string `json:"form,omitempty"` // call / defer: how the callee is written: lit | named | method | pmethod; defervar: where the literal is held: var | field | slice; recoveris: eq | assert
 	Body []Stmt `json:"body,omitempty"`
 }
 
@@ -80,6 +80,12 @@ func bodySexp(b []Stmt) string {
 			items = append(items, common.L("call", bodySexp(s.Body), argSexp(s.Arg), common.B(s.Show)))
 		case "defer":
 			items = append(items, common.L("defer", bodySexp(s.Body), argSexp(s.Arg)))
+		case "defervar":
+			items = append(items, common.L("defervar", bodySexp(s.Body), argSexp(s.Arg)))
+		case "deferpanic":
+			items = append(items, common.L("deferpanic", common.L(s.S, common.Q(s.V))))
+		case "recoveris":
+			items = append(items, common.L("recoveris", common.L(s.S, common.Q(s.V))))
 		case "deferbin":
 			items = append(items, common.L("deferbin", common.Q(s.S), argSexp(s.Arg)))
 		case "deferdel":
@@ -104,7 +110,7 @@ func bodySexp(b []Stmt) string {
 func depthOf(b []Stmt) int {
 	d := 0
 	for _, s := range b {
-		if s.Body != nil || s.Op == "call" || s.Op == "defer" {
+		if s.Body != nil || s.Op == "call" || s.Op == "defer" || s.Op == "defervar" {
 			if x := depthOf(s.Body) + 1; x > d {
 				d = x
 			}
@@ -133,6 +139,17 @@ func goArg(a string, depth int) string {
 		return fmt.Sprintf("r%d", depth)
 	}
 	return a
+}
+
+// goVal renders an explicit panic value.
+func goVal(kind, text string) string {
+	switch kind {
+	case "int":
+		return text
+	case "err":
+		return fmt.Sprintf("errors.New(%q)", text)
+	}
+	return fmt.Sprintf("%q", text)
 }
 
 func faultSnippet(kind string) string {
@@ -209,6 +226,42 @@ func (r *renderer) stmts(b *strings.Builder, body []Stmt, depth int, ind string)
 			}
 		case "defer":
 			fmt.Fprintf(b, "%sdefer %s(%s)\n", ind, r.callee(s, depth, ind), goArg(s.Arg, depth))
+		case "defervar":
+			// the literal is evaluated as a value (getFunc) and held in a variable, a struct field or a slice
+			r.next++
+			lit := r.fnLit(s.Body, depth+1, ind)
+			switch s.Form {
+			case "field":
+				fmt.Fprintf(b, "%shs%d := struct{ f func(int) int }{f: %s}\n", ind, r.next, lit)
+				fmt.Fprintf(b, "%sdefer hs%d.f(%s)\n", ind, r.next, goArg(s.Arg, depth))
+			case "slice":
+				fmt.Fprintf(b, "%shl%d := []func(int) int{%s}\n", ind, r.next, lit)
+				fmt.Fprintf(b, "%sdefer hl%d[0](%s)\n", ind, r.next, goArg(s.Arg, depth))
+			default:
+				fmt.Fprintf(b, "%sh%d := %s\n", ind, r.next, lit)
+				fmt.Fprintf(b, "%sdefer h%d(%s)\n", ind, r.next, goArg(s.Arg, depth))
+			}
+		case "deferpanic":
+			fmt.Fprintf(b, "%sdefer panic(%s)\n", ind, goVal(s.S, s.V))
+		case "recoveris":
+			// is the recovered value the very value `panic` was called with? comparison or type assertion
+			var test string
+			switch {
+			case s.S == "str" && s.Form == "eq":
+				test = fmt.Sprintf("ok := x == %q", s.V)
+			case s.S == "int" && s.Form == "eq":
+				test = fmt.Sprintf("ok := x == %s", s.V)
+			case s.S == "str":
+				test = fmt.Sprintf("s, isT := x.(string); ok := isT && s == %q", s.V)
+			case s.S == "int":
+				test = fmt.Sprintf("n, isT := x.(int); ok := isT && n == %s", s.V)
+			default:
+				// (x != nil first: in yaegi a type assertion of a nil interface{} to a native interface type panics with
+				// `reflect: call of reflect.Value.Type on zero Value` — any nil interface, not a matter of recover)
+				fmt.Fprintf(b, "%s{ x := recover(); ok := false; if x != nil { e, isT := x.(error); ok = isT && e.Error() == %q }; fmt.Println(\"is\", ok) }\n", ind, s.V)
+				continue
+			}
+			fmt.Fprintf(b, "%s{ x := recover(); %s; fmt.Println(\"is\", ok) }\n", ind, test)
 		case "deferbin":
 			fmt.Fprintf(b, "%sdefer fmt.Println(%q, %s)\n", ind, s.S, goArg(s.Arg, depth))
 		case "deferdel":
@@ -268,75 +321,47 @@ func (p Prog) source(entry string) string {
 
 // ---------------------------------------------------------------- class labels (predicates of the input)
 
-// mayPanic: the tree contains a panic statement (explicit or fault), anywhere.
-func mayPanic(b []Stmt) bool {
-	for _, s := range b {
-		if s.Op == "panic" || s.Op == "repanic" {
-			return true // (statements after a panic are dead)
-		}
-		if (s.Op == "call" || s.Op == "defer") && mayPanic(s.Body) {
-			return true
-		}
-	}
-	return false
-}
-
-// pendingPanic: some deferred callee may panic while its frame has another pending deferred call
-// (an earlier defer statement of the same body) — mirror of Lean `Props.C06.DomPending`'s complement.
-func pendingPanic(b []Stmt) bool {
-	seenDefer := false
+// directRecover: recover() — in any of its forms — is written directly in this body, in live code
+// (mirror of Lean `directRecover`).
+func directRecover(b []Stmt) bool {
 	for _, s := range b {
 		switch s.Op {
 		case "panic":
 			return false // the rest of the body is dead
-		case "defer":
-			if seenDefer && mayPanic(s.Body) {
-				return true
-			}
-			if pendingPanic(s.Body) {
-				return true
-			}
-			seenDefer = true
-		case "deferbin", "deferdel":
-			seenDefer = true
-		case "call":
-			if pendingPanic(s.Body) {
-				return true
-			}
+		case "recover", "recoveris", "repanic":
+			return true
 		}
 	}
 	return false
 }
 
-// hasRepanic: some live `if x := recover(); x != nil { panic(x) }`.
-func hasRepanic(b []Stmt) bool {
+// heldRecover: some live defer statement defers a function literal held as a value whose body calls recover()
+// itself — mirror of the complement of Lean `Dom` (F06-7).
+func heldRecover(b []Stmt) bool {
 	for _, s := range b {
-		switch {
-		case s.Op == "panic":
+		switch s.Op {
+		case "panic":
 			return false // the rest of the body is dead
-		case s.Op == "repanic":
-			return true
-		case (s.Op == "call" || s.Op == "defer") && hasRepanic(s.Body):
-			return true
+		case "call", "defer":
+			if heldRecover(s.Body) {
+				return true
+			}
+		case "defervar":
+			if heldRecover(s.Body) || directRecover(s.Body) {
+				return true
+			}
 		}
 	}
 	return false
 }
 
-// (Until the repair of F06-1 there was a third class, defer-arg-by-ref: a defer statement whose argument is
-// the named result variable. Such programs are inside the proved domain now.)
-const (
-	classPending = "deferred-panic-pending"
-	classRepanic = "repanic-boxed-value"
-)
+// The only class left. (Repaired and therefore gone: defer-arg-by-ref, F06-1; deferred-panic-pending, F07;
+// repanic-boxed-value, F06-3. Such programs are inside the proved domain now.)
+const classHeldRecover = "defer-closure-variable-recover"
 
 func classOf(p Prog) string {
-	x := expand(p.Top)
-	switch {
-	case pendingPanic(x):
-		return classPending
-	case hasRepanic(x):
-		return classRepanic
+	if heldRecover(expand(p.Top)) {
+		return classHeldRecover
 	}
 	return ""
 }
@@ -353,11 +378,12 @@ func size(b []Stmt) int {
 // ---------------------------------------------------------------- generator
 
 type genCfg struct {
-	rng      *rand.Rand
-	allowRe  bool // `if x := recover(); x != nil { panic(x) }` may be generated
-	allowPnd bool // a deferred callee may panic although another deferred call is pending
-	budget   int  // statements left
-	tag      int
+	rng     *rand.Rand
+	heldRec bool // a function literal held as a value may call recover() itself (F06-7 class)
+	hot     bool // deferred callees panic often (several per frame, nested, in loops)
+	budget  int  // statements left
+	tag     int
+	vals    [][2]string // explicit panic values raised so far (kind, text): what recoveris compares with
 }
 
 func (g *genCfg) pick(n int) int { return g.rng.Intn(n) }
@@ -367,16 +393,50 @@ func (g *genCfg) newTag(prefix string) string {
 	return fmt.Sprintf("%s%d", prefix, g.tag)
 }
 
-func (g *genCfg) panicStmt() Stmt {
-	switch g.pick(6) {
+// explicitVal draws an explicit panic value: string, int or error.
+func (g *genCfg) explicitVal() (string, string) {
+	var k, v string
+	switch g.pick(4) {
 	case 0:
-		return Stmt{Op: "panic", S: "int", V: fmt.Sprint(100 + g.pick(50))}
+		k, v = "int", fmt.Sprint(100+g.pick(50))
 	case 1:
-		return Stmt{Op: "panic", S: "err", V: g.newTag("e")}
-	case 2, 3:
+		k, v = "err", g.newTag("e")
+	default:
+		k, v = "str", g.newTag("p")
+	}
+	g.vals = append(g.vals, [2]string{k, v})
+	return k, v
+}
+
+func (g *genCfg) panicStmt() Stmt {
+	if g.pick(3) == 0 {
 		return Stmt{Op: "panic", S: "fault", V: faultKinds[g.pick(len(faultKinds))]}
 	}
-	return Stmt{Op: "panic", S: "str", V: g.newTag("p")}
+	k, v := g.explicitVal()
+	return Stmt{Op: "panic", S: k, V: v}
+}
+
+// recoverStmt draws one of the forms of recover(): plain / printed, compared with a value, re-panicked.
+func (g *genCfg) recoverStmt() Stmt {
+	switch g.pick(8) {
+	case 0, 1:
+		return Stmt{Op: "repanic"}
+	case 2, 3:
+		var k, v string
+		if len(g.vals) > 0 && g.pick(4) != 0 {
+			kv := g.vals[g.pick(len(g.vals))]
+			k, v = kv[0], kv[1]
+		} else {
+			k, v = g.explicitVal()
+			g.vals = g.vals[:len(g.vals)-1] // not raised anywhere
+		}
+		form := "assert"
+		if k != "err" && g.pick(2) == 0 {
+			form = "eq"
+		}
+		return Stmt{Op: "recoveris", S: k, V: v, Form: form}
+	}
+	return Stmt{Op: "recover", Show: g.pick(4) != 0}
 }
 
 func (g *genCfg) arg() string {
@@ -405,9 +465,9 @@ func usesOuter(b []Stmt) bool {
 	return false
 }
 
-// body generates a function body. role: "top", "called" (direct callee), "deferred" (deferred callee);
-// quiet: the body must not be able to panic (it is a deferred callee registered while another one is pending).
-func (g *genCfg) body(depth int, role string, quiet bool) []Stmt {
+// body generates a function body. role: "top", "called" (direct callee), "deferred" (deferred callee written at
+// the defer statement), "held" (deferred function literal held as a value).
+func (g *genCfg) body(depth int, role string) []Stmt {
 	var out []Stmt
 	n := 1 + g.pick(5)
 	if depth == 0 {
@@ -416,88 +476,104 @@ func (g *genCfg) body(depth int, role string, quiet bool) []Stmt {
 	if depth >= 3 {
 		n = 1 + g.pick(3)
 	}
-	hasDefer := false
 	for i := 0; i < n && g.budget > 0; i++ {
 		g.budget--
 		c := g.pick(100)
 		switch {
-		case c < 14:
+		case c < 13:
 			out = append(out, Stmt{Op: "print", S: g.newTag("s")})
-		case c < 18:
+		case c < 16:
 			out = append(out, Stmt{Op: "printarg"})
-		case c < 32 && depth < 4:
+		case c < 28 && depth < 4:
 			s := Stmt{Op: "call", Arg: g.arg(), Show: g.pick(2) == 0}
-			s.Body = g.body(depth+1, "called", quiet)
+			s.Body = g.body(depth+1, "called")
 			s.Form = g.form(usesOuter(s.Body))
 			out = append(out, s)
-		case c < 56 && depth < 4:
-			q := quiet || (hasDefer && !g.allowPnd)
+		case c < 46 && depth < 4:
 			s := Stmt{Op: "defer", Arg: g.arg()}
-			s.Body = g.body(depth+1, "deferred", q)
+			s.Body = g.body(depth+1, "deferred")
 			s.Form = g.form(usesOuter(s.Body))
 			out = append(out, s)
-			hasDefer = true
-		case c < 59:
+		case c < 54 && depth < 4:
+			// a function literal held in a variable / a struct field / a slice, then deferred
+			s := Stmt{Op: "defervar", Arg: g.arg(), Form: []string{"var", "var", "field", "slice"}[g.pick(4)]}
+			s.Body = g.body(depth+1, "held")
+			if s.Body == nil {
+				s.Body = []Stmt{}
+			}
+			out = append(out, s)
+		case c < 57:
 			out = append(out, Stmt{Op: "deferbin", S: g.newTag("b"), Arg: g.arg()})
-			hasDefer = true
-		case c < 62:
+		case c < 61:
 			// defers in a loop: the same callee registered N times with the loop variable as argument
 			s := Stmt{Op: "deferloop", N: 2 + g.pick(2), S: g.newTag("l")}
-			if g.pick(2) == 0 && depth < 4 {
-				s.Body = g.body(depth+1, "deferred", quiet || !g.allowPnd)
+			if g.pick(3) != 0 && depth < 4 {
+				s.Body = g.body(depth+1, "deferred")
 				if s.Body == nil {
 					s.Body = []Stmt{}
 				}
 				s.Form = g.form(usesOuter(s.Body))
 			}
 			out = append(out, s)
-			hasDefer = true
-		case c < 66:
+		case c < 64:
 			out = append(out, Stmt{Op: "deferdel", N: g.pick(4)})
-			hasDefer = true
-		case c < 70:
+		case c < 68:
+			k, v := g.explicitVal()
+			out = append(out, Stmt{Op: "deferpanic", S: k, V: v})
+		case c < 71:
 			out = append(out, Stmt{Op: "probe", N: g.pick(4)})
-		case c < 80:
+		case c < 82:
 			// recover: mostly where it matters (deferred callee), sometimes elsewhere
-			if g.allowRe && (role == "deferred" || g.pick(6) == 0) && !quiet && g.pick(2) == 0 {
-				out = append(out, Stmt{Op: "repanic"})
-			} else if role == "deferred" || g.pick(4) == 0 {
-				out = append(out, Stmt{Op: "recover", Show: g.pick(4) != 0})
-			} else {
+			switch {
+			case role == "held" && !g.heldRec:
+				out = append(out, Stmt{Op: "print", S: g.newTag("s")})
+			case role == "deferred" || role == "held" || g.pick(4) == 0:
+				out = append(out, g.recoverStmt())
+			default:
 				out = append(out, Stmt{Op: "print", S: g.newTag("s")})
 			}
-		case c < 86:
+		case c < 87:
 			out = append(out, Stmt{Op: "setres", N: 10 + g.pick(40)})
 		case c < 90:
 			if depth > 0 {
 				out = append(out, Stmt{Op: "setouter", N: 50 + g.pick(40)})
 			}
 		default:
-			if !quiet {
-				out = append(out, g.panicStmt())
-				if g.pick(4) != 0 {
-					return out // usually the panic ends the body; otherwise dead code follows
-				}
+			out = append(out, g.panicStmt())
+			if g.pick(4) != 0 {
+				return out // usually the panic ends the body; otherwise dead code follows
 			}
 		}
+	}
+	if g.hot && (role == "deferred" || role == "held") && g.pick(5) < 2 {
+		out = append(out, g.panicStmt())
 	}
 	return out
 }
 
-// generateOne draws one program from the named stream: dom (inside the proved domain),
-// pending (F07 class allowed), repanic (re-panic of the recovered value allowed), wild (both).
-// In every stream the argument of a call / defer statement may be the named result variable.
+// generateOne draws one program from the named stream: dom (inside the proved domain), dpanic (the same, deferred
+// callees panic often), heldrec (a held function literal may call recover() itself: the F06-7 class is allowed).
+// In every stream deferred callees may panic whatever else is pending, recovered values may be compared and
+// re-panicked, `defer panic(v)` and held literals occur, and a call / defer argument may be the named result.
 func generateOne(rng *rand.Rand, stream string) Prog {
 	g := &genCfg{rng: rng, budget: 8 + rng.Intn(24)}
 	switch stream {
-	case "pending":
-		g.allowPnd = true
-	case "repanic":
-		g.allowRe = true
-	case "wild":
-		g.allowPnd, g.allowRe = true, true
+	case "dpanic":
+		g.hot = true
+	case "heldrec":
+		g.heldRec = true
+		g.hot = rng.Intn(2) == 0
 	}
-	p := Prog{Top: g.body(0, "top", false), Style: "main"}
+	top := g.body(0, "top")
+	if rng.Intn(3) == 0 {
+		// a recovering deferred literal registered first (it runs last): about half of the programs end without a panic
+		rec := []Stmt{g.recoverStmt()}
+		if rng.Intn(2) == 0 {
+			rec = append(rec, Stmt{Op: "setouter", N: 50 + rng.Intn(40)})
+		}
+		top = append([]Stmt{{Op: "defer", Arg: g.arg(), Form: "lit", Body: rec}}, top...)
+	}
+	p := Prog{Top: top, Style: "main"}
 	if rng.Intn(2) == 0 {
 		p.Style = "call"
 	}
@@ -516,12 +592,26 @@ func features(b []Stmt, in string, acc map[string]bool) {
 			acc["panic-in:"+in] = true
 		case "recover":
 			acc["recover-in:"+in] = true
+		case "recoveris":
+			acc["recoveris-in:"+in] = true
+			acc["recoveris:"+s.S+"/"+s.Form] = true
 		case "repanic":
 			acc["repanic-in:"+in] = true
+		case "deferpanic":
+			acc["deferpanic:"+s.S] = true
+		case "defervar":
+			acc["defervar:"+s.Form] = true
+			if mayPanicLive(s.Body) {
+				acc["panics:held-literal"] = true
+			}
+			features(s.Body, "held", acc)
 		case "deferloop":
 			acc["deferloop"] = true
 			if s.Form != "" {
 				acc["defer:"+s.Form] = true
+				if mayPanicLive(s.Body) {
+					acc["panics:deferred-in-loop"] = true
+				}
 				features(s.Body, "deferred", acc)
 			}
 		case "call":
@@ -532,9 +622,65 @@ func features(b []Stmt, in string, acc map[string]bool) {
 			if s.Arg == "param" || s.Arg == "res" {
 				acc["defer-arg:"+s.Arg] = true
 			}
+			if mayPanicLive(s.Body) {
+				acc["panics:deferred"] = true
+				if in == "deferred" || in == "held" {
+					acc["panics:deferred-nested"] = true
+				}
+			}
 			features(s.Body, "deferred", acc)
 		case "deferbin", "deferdel", "setouter", "setres", "probe":
 			acc[s.Op] = true
 		}
 	}
+}
+
+// mayPanicLive: the body (or something it calls or defers) contains a live panic statement.
+func mayPanicLive(b []Stmt) bool {
+	for _, s := range b {
+		switch s.Op {
+		case "panic", "deferpanic", "repanic":
+			return true
+		case "call", "defer", "defervar", "deferloop":
+			if mayPanicLive(s.Body) {
+				return true
+			}
+		}
+		if s.Op == "panic" {
+			return false
+		}
+	}
+	return false
+}
+
+// panickingDefers counts the defer statements of one body whose callee may panic (several per frame).
+func panickingDefers(b []Stmt) int {
+	best := 0
+	n := 0
+	for _, s := range b {
+		if s.Op == "panic" {
+			break
+		}
+		switch s.Op {
+		case "defer", "defervar":
+			if mayPanicLive(s.Body) {
+				n++
+			}
+		case "deferpanic":
+			n++
+		case "deferloop":
+			if mayPanicLive(s.Body) {
+				n += s.N
+			}
+		}
+		if s.Body != nil {
+			if m := panickingDefers(s.Body); m > best {
+				best = m
+			}
+		}
+	}
+	if n > best {
+		best = n
+	}
+	return best
 }
